@@ -163,6 +163,26 @@ pub fn run(run: &mut Run) -> Finish {
             l.case(class != 0, class + 100);
         });
     }
+    // names that differ in case only, and names holding characters whose low byte is '/' or '\\'
+    for (pi, pool) in [["a", "A", "b"], ["a", "ぜ", "丯b"]].iter().enumerate() {
+        let pool = *pool;
+        for (fi, &(abs, sb, st)) in forms.iter().enumerate() {
+            let name = format!("every ordered pair of {} paths with 1..={maxw} components over {pool:?}, base separator {sb:?}, target separator {st:?}", if abs { "absolute" } else { "relative" });
+            run.par_slice(&name, 31 + (pi * 6 + fi) as u64, nw * nw, |idx, l| {
+                let k = idx & ((1 << 40) - 1);
+                let map = |p: Vec<&'static str>| -> Vec<&'static str> { p.iter().map(|c| pool[NAMES.iter().position(|n| n == c).unwrap()]).collect() };
+                let (bs, ts) = (render(&map(path_components(k / nw, maxw)), abs, sb), render(&map(path_components(k % nw, maxw)), abs, st));
+                let (v, class) = check_pair(&bs, &ts);
+                if let Some(mut v) = v {
+                    if !bs.is_ascii() || !ts.is_ascii() {
+                        v.sig = format!("{}/multi-byte-names", v.sig);
+                    }
+                    l.violation(idx, v);
+                }
+                l.case(class != 0, class + 300 + 100 * pi as u64);
+            });
+        }
+    }
     // a third pool whose names extend one another (string prefixes that are not component prefixes)
     const EXT: [&str; 3] = ["a", "ab", "abc"];
     for (fi, &(abs, sb, st)) in forms.iter().enumerate() {
@@ -181,7 +201,7 @@ pub fn run(run: &mut Run) -> Finish {
     }
     Finish {
         level: "exploration",
-        rule: "E1: every ordered pair of paths with 1..N components (N=6 quick, 8 thorough) over the name pool {a,b,c} (and with 1..4 components over {a, ü, プロ} and over {a, ab, abc}), in six forms (absolute/relative x separator combinations); distinct by construction. Oracle: component-wise resolution of the result against dir(base) equals the target, and '.' iff target = dir(base). Non-trivial = needs at least one '..' or one descended component; outcome class = (ups, downs) capped at 3.".into(),
+        rule: "E1: every ordered pair of paths with 1..N components (N=6 quick, 8 thorough) over the name pool {a,b,c} (and with 1..4 components over {a, ü, プロ} over {a, ab, abc}, {a, A, b} and {a, ぜ, 丯b}), in six forms (absolute/relative x separator combinations); distinct by construction. Oracle: component-wise resolution of the result against dir(base) equals the target, and '.' iff target = dir(base). Non-trivial = needs at least one '..' or one descended component; outcome class = (ups, downs) capped at 3.".into(),
         assumptions: vec!["paths made of ordinary components only (no '.', '..', empty components, drive letters) as the property states".into()],
         coverage_extra: json!({"max_components": maxc, "paths_per_form": n}),
     }
